@@ -61,7 +61,7 @@ func HarnessVarInt() {
 // command = ping, an unknown command, or headers) followed by n arbitrary payload bytes.
 func HarnessFraming(n int) {
 	vh.SetAllocView(n + 8)
-	cmds := []string{CmdPing, "bogus", CmdHeaders}
+	cmds := []string{CmdPing, "bogus", CmdHeaders, CmdVerAck} // verack: a message with an empty payload
 	cmd := cmds[vh.Choose(len(cmds))]
 	magic := vh.NondetU32("magic")
 	length := vh.NondetU32("length")
